@@ -31,8 +31,9 @@ META = {
             '_getCipherSettings, _getMacSettings, canonicalCipherName/MacName, the PRF calc_key applies, the TLS 1.3 '
             'key-schedule hash, filterForVersion and the get*Suites filters as the handshake combines them): key '
             'length, IV, cipher, MAC/tag, PRF, key-exchange class, version range and accessor names equal the meaning '
-            'parsed from an independently written IANA registry. The MAC-name statements are refuted at 0x00A3 '
-            '(known finding) and proved for every other suite. Every negotiable suite x version is also handshaken '
+            'parsed from an independently written IANA registry, membership in each *Suites list equals its stated '
+            'meaning, and the cipher/MAC/key-exchange/version lists partition the negotiable suites (all full; the MAC '
+            'statements were refuted at 0x00A3 until that was fixed in /repo). Every negotiable suite x version is also handshaken '
             'live (two configurations) and the wire/record-layer observations are compared with the parsed meaning '
             'inside Coq; every non-negotiable pair is offered live and must fail.',
     'note': 'Trusted: Coq kernel + vm_compute; Spec/Iana.v (my transcription of the registry and naming conventions; '
@@ -402,16 +403,6 @@ def run(ctx):
         ctx.violation('tie-broken', tie_broken, {'correspondence': 'Gen/Suites.v / live handshakes vs tlslite', 'detail': tie_broken},
                       found_input=False)
         found = True
-    if not res['ok'] and not found:
-        # the refuted statements stop holding when 0x00A3 leaves sha384Suites: say so
-        try:
-            rc, out = vlib.coq_eval('C20e', ['Gen.Suites', 'Spec.Iana', 'Model.C20_Classify'],
-                                    ['failing (fun s _ => chk_mac_accessor s)'])
-            if rc == 0 and '[]' in out:
-                ctx.notes.append('mac_classification_refuted no longer holds: no negotiable suite fails the MAC statements; '
-                                 'restate mac_classification_partial as the full theorem')
-        except Exception:  # noqa
-            pass
     vlib.broken_proof_verdict(ctx, res, found)
 
 
